@@ -265,3 +265,15 @@ def meanValid (xs : List (Option Rat)) : Option Rat :=
   if v.length > 0 then some (v.sum / (v.length : Rat)) else none
 
 end PEval.Manager
+
+/-!
+### Note (heap model)
+
+In this file a ground-truth frame is a VALUE and `Sem.evalDet` has no access to the state, so "the dataset
+is not modified" and "the result does not depend on the history" cannot fail here.  The model in which
+they can — frames and estimate lists as cells of a store, passed by reference, the assignments of
+`_filter_objects` / `evaluate_frame` as writes, with the F5-defective variant next to the repaired code —
+is `PEval/Model/ManagerHeap.lean`; `Lemmas/ManagerHeap.lean` (`hrun_sim`) proves that the repaired heap
+machine refines `run` of this file, so the theorems about `run` transfer.  `apOf` below the line
+"a concrete AP" is proved equal to the `ap` of `PEval.AP.apOf` in `Lemmas/ManagerAPLink.lean`.
+-/
